@@ -117,6 +117,7 @@ def merge(parts):
         if p.get('inconclusive') and not m['inconclusive']:
             m['inconclusive'] = p['inconclusive']
     m['distinct'] = len(sigs)
+    m['sigs'] = sorted(sigs)          # keeps a merged partial mergeable again (shard bisection)
     m['features'] = sorted(feats)
     return m
 
